@@ -881,7 +881,7 @@ theorem S0F.cong {g : Cfg} {W : FList} (c c' : Conn) (h : S0F g W c)
 theorem bwrite_outF {g : Cfg} {W : FList} {c : Conn} {r0 r : AReq} {h : HState} {e0 : Run.Env}
     {O1 : Bytes} (hph : c.phase = .handler r0 h)
     {out : AReq × HState × Run.Env × HRes}
-    (heq : handlerPoll (handlerFuel c.env r0) r0 h c.env = out)
+    (heq : handlerPoll ((handlerFuel c.env r0 + scriptOf c)) r0 h c.env = out)
     (hw : WOut3 g.p.id W g.st (g.L1 ++ O1) r e0 out)
     (hts0 : TStep c.env.tr e0.tr) (hfl0 : e0.tr.fl <:+ c.env.tr.fl) (hsg0 : e0.segs = c.env.segs)
     (hfin : REnd g.N r e0.tr.input) (hO : O1 ++ r.sp.output = g.Ob) (hseen : QR g e0.tr)
@@ -920,7 +920,7 @@ theorem hwf_poll {g : Cfg} {W : FList} (ok : WFOK g W) {c : Conn} (h : HWf g W c
   obtain ⟨r, h, O1, hph, hw, hfin, hO, hseen, hb, hstop, hev, hsc⟩ := h
   have hfuel := handlerFuel_ge c.env r
   have hfu := ok.hfu
-  have hout := write_phase3 (r := r) hw hb hok (fuel := handlerFuel c.env r) (by omega)
+  have hout := write_phase3 (r := r) hw hb hok (fuel := (handlerFuel c.env r + scriptOf c)) (by omega)
   exact bwrite_outF (r := r) (e0 := c.env) hph rfl hout (.refl _) (List.suffix_refl _) rfl hfin hO hseen hb hstop hev hsc
 
 /-- the rest of a poll from the handler's `readAll` on -/
@@ -935,10 +935,10 @@ theorem ra_pollF {g : Cfg} {W : FList} (ok : WFOK g W) {c : Conn} {r : AReq} {su
   have hcapr : r.sp.cap = g.cap := hi0.capK
   have hcapK : g.K.cap = g.cap := rfl
   have hfu := ok.hfu
-  have hfuel : g.K.cap / 32 + 3 * c.env.tr.input.length + fcost W + 14 ≤ handlerFuel c.env r := by
+  have hfuel : g.K.cap / 32 + 3 * c.env.tr.input.length + fcost W + 14 ≤ (handlerFuel c.env r + scriptOf c) := by
     unfold handlerFuel; rw [hcapr, hcapK]; omega
   rcases readAll_runF hK (L := g.L1) (P := []) (otailF W g.st) [] true
-      (2 * ((g.K.C.length - (accOf sub).length) / 64) + 2 * c.env.tr.input.length + 2) (handlerFuel c.env r) r sub c.env dO 1
+      (2 * ((g.K.C.length - (accOf sub).length) / 64) + 2 * c.env.tr.input.length + 2) ((handlerFuel c.env r + scriptOf c)) r sub c.env dO 1
       (by omega) (by omega) (fun h => by omega) hb hs with
     ⟨r', acc', e', dO', d1, d3, d5, d6, d8, d9, dfl⟩ |
     ⟨r', e', f', d1, d2, d3, dl, dm, d4, d5, d6, dw, d8, d9, dfl⟩
